@@ -981,7 +981,8 @@ func runChild(seed int64, n int, dir string, withCorpus bool) {
 			}
 			r1, e1 := c.execChecked(q1+";", "plain")
 			r2, e2 := c.execChecked(q1+";", "plain")
-			if canon(r1, e1) != canon(r2, e2) {
+			// NOW is documented non-deterministic: its column differs between two evaluations by design
+			if !strings.Contains(what, "NOW()") && canon(r1, e1) != canon(r2, e2) {
 				o.Law("repeat_eval:plain", map[string]string{"sql": q1, "first": canon(r1, e1), "second": canon(r2, e2), "first_error": errText(e1), "second_error": errText(e2)})
 			}
 			again, e := c.execChecked("SELECT * FROM t ORDER BY id; SELECT * FROM t2;", "reread_table")
